@@ -1,12 +1,688 @@
-//! C18: harness not built yet.
+//! C18: BTP delivers each message intact, once and in order, or fails cleanly.
+//!
+//! Two REAL `Btp` objects (each owning a real `btp::session::Session`, its one-slot outgoing SDU and
+//! the real pump `process_outgoing`) are joined by two FIFO queues and driven by scheduler
+//! operations; a hostile peer is simulated by injecting arbitrary / nearly valid segments.
+//!
+//! case line:  `case <id> <l|h> <init_a> <init_b> <gatt_a> <gatt_b> <relaxed_a> <relaxed_b>` (gatt 0 = unknown)
+//! operations: `send x <hex>`   Btp::send (non-blocking half)        => ok | busy | err E
+//!             `poll x`         Btp::process_outgoing; the segment is queued towards the peer
+//!                                                                    => tx <hex> | none | err E
+//!             `dlv x`          head of the queue towards x -> Btp::process_incoming => ok | err E | empty
+//!             `inj x <hex>`    arbitrary bytes -> Btp::process_incoming            => ok | err E
+//!             `fetch x <cap>`  Btp::recv (non-blocking half) into a buffer of cap bytes => msg <hex> | none | err E
+//!             `tick <secs>`    advance the mock clock                               => ok
+//!             `hsw x <win>`    rewrite the window byte of the handshake request travelling towards x => ok | skip
+//!             `due x`          Session::is_ack_due(now, ack timeout)                => 0 | 1
+//! every answer of an end is followed by ` | <14 window fields>`; `panic` marks the end dead.
+use std::collections::VecDeque;
+use std::panic::{catch_unwind, AssertUnwindSafe};
+
+use crate::proto::{hex, parse_cases, unhex, Case, Out};
+use crate::rng::Rng;
 use crate::Args;
 
-pub fn gen(_a: &Args) -> String {
-    eprintln!("C18: harness not built yet");
-    std::process::exit(2);
+use embassy_time::{Duration, MockDriver};
+use rs_matter::transport::network::btp::verif_btp::Session;
+use rs_matter::transport::network::btp::Btp;
+use rs_matter::transport::network::BtAddr;
+
+const PEER: BtAddr = BtAddr([1, 2, 3, 4, 5, 6]);
+const MAX_TX: usize = 1232;
+
+struct End {
+    btp: Box<Btp>,
+    gatt: Option<u16>,
+    dead: bool,
 }
 
-pub fn replay(_a: &Args) -> String {
-    eprintln!("C18: harness not built yet");
-    std::process::exit(2);
+impl End {
+    fn new(initiator: bool, gatt: u16, relaxed: bool) -> Self {
+        let btp = Box::new(Btp::new());
+        btp.set_initiator(initiator);
+        btp.set_relaxed_mtu_nego(relaxed);
+        End { btp, gatt: if gatt == 0 { None } else { Some(gatt) }, dead: false }
+    }
+    fn st(&self) -> String {
+        let (s, l, o) = self.btp.verif_state();
+        let mut v: Vec<String> = s.iter().map(|x| x.to_string()).collect();
+        v.push(l.to_string());
+        v.push(o.to_string());
+        v.join(",")
+    }
+    fn fields(&self) -> [u32; 12] {
+        self.btp.verif_state().0
+    }
 }
+
+struct World {
+    a: End,
+    b: End,
+    q_ab: VecDeque<Vec<u8>>,
+    q_ba: VecDeque<Vec<u8>>,
+}
+
+fn errname(e: &rs_matter::error::Error) -> String {
+    format!("err {:?}", e.code())
+}
+
+impl World {
+    fn new(kind: &str) -> World {
+        let f: Vec<u16> = kind.split_whitespace().skip(1).map(|x| x.parse().unwrap_or(0)).collect();
+        let g = |i: usize| f.get(i).copied().unwrap_or(0);
+        MockDriver::get().reset();
+        World {
+            a: End::new(g(0) == 1, g(2), g(4) == 1),
+            b: End::new(g(1) == 1, g(3), g(5) == 1),
+            q_ab: VecDeque::new(),
+            q_ba: VecDeque::new(),
+        }
+    }
+
+    fn end(&mut self, x: &str) -> &mut End {
+        if x == "a" {
+            &mut self.a
+        } else {
+            &mut self.b
+        }
+    }
+
+    /// Execute one operation on the real code; returns the canonical output.
+    fn exec(&mut self, op: &str) -> String {
+        let w: Vec<&str> = op.split_whitespace().collect();
+        if w.is_empty() {
+            return "bad".into();
+        }
+        if w[0] == "tick" {
+            let n: u64 = w.get(1).and_then(|x| x.parse().ok()).unwrap_or(0);
+            MockDriver::get().advance(Duration::from_secs(n));
+            return "ok".into();
+        }
+        let x = w.get(1).copied().unwrap_or("a");
+        if w[0] == "hsw" {
+            // a conforming peer with another window preference: rewrite the window byte of the
+            // handshake request travelling towards x
+            let win: u8 = w.get(2).and_then(|c| c.parse().ok()).unwrap_or(1);
+            let q = if x == "a" { &mut self.q_ba } else { &mut self.q_ab };
+            return match q.front_mut() {
+                Some(h) if h.len() == 9 && h[0] == 0x65 && h[1] == 0x6c => {
+                    h[8] = win;
+                    "ok".into()
+                }
+                _ => "skip".into(),
+            };
+        }
+        if self.end(x).dead {
+            return "dead".into();
+        }
+        let res: Result<String, ()> = match w[0] {
+            "send" => {
+                let m = unhex(w.get(2).copied().unwrap_or("-"));
+                let e = self.end(x);
+                catch_unwind(AssertUnwindSafe(|| match e.btp.verif_send(&m, PEER) {
+                    Ok(true) => "ok".to_string(),
+                    Ok(false) => "busy".to_string(),
+                    Err(err) => errname(&err),
+                }))
+                .map_err(|_| ())
+            }
+            "poll" => {
+                let e = self.end(x);
+                let gatt = e.gatt;
+                let mut buf = [0u8; 512];
+                let r = catch_unwind(AssertUnwindSafe(|| e.btp.process_outgoing(gatt, &mut buf)));
+                match r {
+                    Err(_) => Err(()),
+                    Ok(Err(err)) => Ok(errname(&err)),
+                    Ok(Ok(0)) => Ok("none".to_string()),
+                    Ok(Ok(n)) => {
+                        let seg = buf[..n].to_vec();
+                        let s = format!("tx {}", hex(&seg));
+                        if x == "a" {
+                            self.q_ab.push_back(seg);
+                        } else {
+                            self.q_ba.push_back(seg);
+                        }
+                        Ok(s)
+                    }
+                }
+            }
+            "dlv" | "inj" => {
+                let seg = if w[0] == "dlv" {
+                    let q = if x == "a" { &mut self.q_ba } else { &mut self.q_ab };
+                    match q.pop_front() {
+                        Some(s) => s,
+                        None => return "empty".into(),
+                    }
+                } else {
+                    unhex(w.get(2).copied().unwrap_or("-"))
+                };
+                let e = self.end(x);
+                let gatt = e.gatt;
+                catch_unwind(AssertUnwindSafe(|| match e.btp.process_incoming(gatt, PEER, &seg) {
+                    Ok(()) => "ok".to_string(),
+                    Err(err) => errname(&err),
+                }))
+                .map_err(|_| ())
+            }
+            "fetch" => {
+                let cap: usize = w.get(2).and_then(|c| c.parse().ok()).unwrap_or(2048).min(8192);
+                let e = self.end(x);
+                let mut buf = vec![0u8; cap];
+                catch_unwind(AssertUnwindSafe(|| match e.btp.verif_recv(&mut buf) {
+                    Ok(Some((n, _))) => format!("msg {}", hex(&buf[..n])),
+                    Ok(None) => "none".to_string(),
+                    Err(err) => errname(&err),
+                }))
+                .map_err(|_| ())
+            }
+            "due" => {
+                let e = self.end(x);
+                return match catch_unwind(AssertUnwindSafe(|| e.btp.verif_is_ack_due())) {
+                    Ok(true) => "1".into(),
+                    Ok(false) => "0".into(),
+                    Err(_) => "panic".into(),
+                };
+            }
+            _ => return "bad".into(),
+        };
+        match res {
+            Ok(s) => format!("{} | {}", s, self.end(x).st()),
+            Err(()) => {
+                self.end(x).dead = true;
+                "panic".into()
+            }
+        }
+    }
+}
+
+// ------------------------------------------------------------------------------------------------
+// segment crafting (the hostile peer)
+
+#[derive(Default, Clone)]
+struct Seg {
+    flags: u8,
+    opcode: u8,
+    ack: u8,
+    seq: u8,
+    len: u16,
+    payload: Vec<u8>,
+}
+
+impl Seg {
+    fn bytes(&self) -> Vec<u8> {
+        let mut v = vec![self.flags];
+        if self.flags & 0x20 != 0 {
+            v.push(self.opcode);
+        }
+        if self.flags & 0x08 != 0 {
+            v.push(self.ack);
+        }
+        if self.flags & 0x40 == 0 {
+            v.push(self.seq);
+        }
+        if self.flags & 0x01 != 0 && self.flags & 0x40 == 0 {
+            v.extend_from_slice(&self.len.to_le_bytes());
+        }
+        v.extend_from_slice(&self.payload);
+        v
+    }
+    fn hdr_len(&self) -> usize {
+        self.bytes().len() - self.payload.len()
+    }
+}
+
+fn hs_req(versions: u32, mtu: u16, window: u8) -> Vec<u8> {
+    let mut v = vec![0x65, 0x6c];
+    v.extend_from_slice(&versions.to_le_bytes());
+    v.extend_from_slice(&mtu.to_le_bytes());
+    v.push(window);
+    v
+}
+
+fn hs_resp(version: u8, mtu: u16, window: u8) -> Vec<u8> {
+    let mut v = vec![0x65, 0x6c, version];
+    v.extend_from_slice(&mtu.to_le_bytes());
+    v.push(window);
+    v
+}
+
+struct Gen<'a> {
+    w: World,
+    ops: Vec<(String, String)>,
+    out: &'a mut Out,
+    n_ok: u64,
+    n_err: u64,
+    n_msg: u64,
+    n_tx: u64,
+}
+
+impl<'a> Gen<'a> {
+    fn op(&mut self, op: String) -> String {
+        let o = self.w.exec(&op);
+        let r = o.split(" | ").next().unwrap_or("").to_string();
+        let key = r.split_whitespace().next().unwrap_or("").to_string();
+        let cmd = op.split_whitespace().next().unwrap_or("").to_string();
+        self.out.stat(&format!("{}_{}", cmd, if key == "err" { r.replace(' ', "_") } else { key.clone() }), 1);
+        match key.as_str() {
+            "ok" if cmd == "dlv" || cmd == "inj" => self.n_ok += 1,
+            "err" => self.n_err += 1,
+            "msg" => self.n_msg += 1,
+            "tx" => self.n_tx += 1,
+            _ => {}
+        }
+        self.ops.push((op, o));
+        r
+    }
+}
+
+const MTUS: [u16; 22] = [0, 1, 2, 3, 4, 5, 8, 19, 20, 22, 23, 24, 25, 30, 64, 100, 185, 244, 247, 248, 512, 65535];
+const WINS: [u8; 12] = [0, 1, 2, 3, 4, 5, 6, 8, 79, 80, 128, 255];
+
+/// hostile stream: one real end `a` (role by the case line); the generator is the peer.
+fn gen_hostile(r: &mut Rng, out: &mut Out, id: u64, thorough: bool) -> (String, Vec<(String, String)>, bool) {
+    let init = r.chance(1, 3);
+    let gatt: u16 = *r.pick(&[0u16, 0, 23, 24, 64, 100, 185, 247, 248, 512, 5, 3, 2]);
+    let relaxed = r.chance(1, 2);
+    let kind = format!("h {} 0 {} 0 {} 0", init as u8, gatt, relaxed as u8);
+    let mut g = Gen { w: World::new(&kind), ops: Vec::new(), out, n_ok: 0, n_err: 0, n_msg: 0, n_tx: 0 };
+    let _ = id;
+    // optional pre-handshake noise
+    if r.chance(1, 3) {
+        for _ in 0..r.range(1, 4) {
+            let bytes = match r.below(4) {
+                0 => { let n = r.range(0, 12) as usize; r.bytes(n) },
+                1 => Seg { flags: 0x05, seq: r.below(3) as u8, len: 3, payload: vec![1, 2, 3], ..Default::default() }.bytes(),
+                2 => Seg { flags: 0x08, seq: 0, ack: r.next() as u8, ..Default::default() }.bytes(),
+                _ => vec![r.next() as u8],
+            };
+            g.op(format!("inj a {}", hex(&bytes)));
+            if r.chance(1, 2) {
+                g.op("poll a".into());
+            }
+        }
+    }
+    // handshake
+    let do_handshake = |g: &mut Gen, r: &mut Rng, valid_bias: u64| {
+        if init {
+            g.op("poll a".into()); // emits the request
+            let (mtu, win) = if r.below(100) < valid_bias {
+                (*r.pick(&[20u16, 21, 50, 100, 182, 244]), *r.pick(&[1u8, 2, 3, 4, 6, 10, 79, 255]))
+            } else {
+                (*r.pick(&MTUS), *r.pick(&WINS))
+            };
+            let mut bytes = hs_resp(r.range(0, 5) as u8, mtu, win);
+            match r.below(20) {
+                0 => {
+                    bytes.pop();
+                }
+                1 => bytes[0] = r.next() as u8 | 0x40,
+                2 => bytes[1] = r.next() as u8,
+                3 => bytes.extend_from_slice(&r.bytes(3)),
+                _ => {}
+            }
+            g.op(format!("inj a {}", hex(&bytes)));
+        } else {
+            let (mtu, win) = if r.below(100) < valid_bias {
+                (*r.pick(&[0u16, 23, 64, 100, 185, 247, if gatt == 0 { 23 } else { gatt }]), *r.pick(&[1u8, 2, 3, 4, 6, 10, 79, 255]))
+            } else {
+                (*r.pick(&MTUS), *r.pick(&WINS))
+            };
+            let mut bytes = hs_req(*r.pick(&[4u32, 0, 0x54, 0x0400_0000, 0xffff_ffff, 0x40]), mtu, win);
+            match r.below(20) {
+                0 => {
+                    bytes.pop();
+                }
+                1 => bytes[0] = r.next() as u8 | 0x40,
+                2 => bytes[1] = r.next() as u8,
+                3 => bytes.extend_from_slice(&r.bytes(3)),
+                _ => {}
+            }
+            g.op(format!("inj a {}", hex(&bytes)));
+            g.op("poll a".into()); // emits the response
+        }
+    };
+    do_handshake(&mut g, r, 75);
+    let steps = if thorough { r.range(10, 400) } else { r.range(5, 120) };
+    // behaviour profile of the peer
+    let profile = r.below(6);
+    let mut msg_in_progress: Option<(usize, usize)> = None; // (total, sent) of the SDU the peer is sending
+    for _ in 0..steps {
+        if g.w.a.dead {
+            break;
+        }
+        let f = g.w.a.fields();
+        let (mtu, _win, est, s_level, last_sent, r_level, _ack_level, ack_seq, rem) =
+            (f[0] as usize, f[1], f[3], f[4], f[5] as u8, f[6], f[7], f[8] as u8, f[9] as usize);
+        let c = r.below(100);
+        if c < 8 {
+            let len = match r.below(4) {
+                0 => r.range(1, 8),
+                1 => r.range(1, 40),
+                2 => r.range(1, 300),
+                _ => *r.pick(&[0u64, 1, 15, 16, 17, 20, 1232, 1233]),
+            } as usize;
+            let m = r.bytes(len);
+            g.op(format!("send a {}", hex(&m)));
+        } else if c < 24 {
+            g.op("poll a".into());
+        } else if c < 32 {
+            let cap = if r.chance(1, 8) { r.range(0, 20) } else { 4096 };
+            g.op(format!("fetch a {}", cap));
+        } else if c < 35 {
+            g.op(format!("tick {}", *r.pick(&[1u64, 5, 14, 15, 16, 31])));
+            g.op("due a".into());
+        } else if c < 37 {
+            do_handshake(&mut g, r, 60);
+            msg_in_progress = None;
+        } else {
+            // a data / ack segment, mostly valid
+            let mut s = Seg::default();
+            s.seq = match r.below(20) {
+                0 => ack_seq,
+                1 => ack_seq.wrapping_add(2),
+                2 => r.next() as u8,
+                _ => ack_seq.wrapping_add(1),
+            };
+            // acknowledgement
+            let outstanding_known = s_level < f[1];
+            match r.below(if profile == 1 { 40 } else { 12 }) {
+                0 | 1 | 2 | 3 => {
+                    if outstanding_known || r.chance(1, 6) {
+                        s.flags |= 0x08;
+                        s.ack = last_sent;
+                    }
+                }
+                4 => {
+                    s.flags |= 0x08;
+                    s.ack = last_sent.wrapping_sub(r.range(0, 3) as u8);
+                }
+                5 => {
+                    s.flags |= 0x08;
+                    let rnd = r.next() as u8;
+                    s.ack = *r.pick(&[77u8, last_sent.wrapping_add(1), last_sent.wrapping_add(2), rnd, 0, 255]);
+                }
+                _ => {}
+            }
+            let hdr_base = 2 + (s.flags & 0x08 != 0) as usize;
+            let shape = r.below(100);
+            if shape < 12 {
+                // standalone ack (or nothing-flag segment when no ack bit)
+                if r.chance(1, 10) {
+                    s.payload = { let n = r.range(1, 3) as usize; r.bytes(n) };
+                }
+            } else if let Some((total, sent)) = msg_in_progress.filter(|_| rem > 0 && shape < 90) {
+                // continue the SDU
+                let room = mtu.saturating_sub(hdr_base);
+                let left = total.saturating_sub(sent);
+                if left <= room || room == 0 {
+                    s.flags |= 0x04;
+                    s.payload = r.bytes(left);
+                    msg_in_progress = None;
+                } else {
+                    s.flags |= 0x02;
+                    s.payload = r.bytes(room);
+                    msg_in_progress = Some((total, sent + room));
+                }
+                match r.below(30) {
+                    0 => s.flags |= 0x01,
+                    1 => {
+                        s.payload.push(0);
+                    }
+                    2 => {
+                        s.payload.pop();
+                    }
+                    3 => s.flags ^= 0x04,
+                    _ => {}
+                }
+            } else if shape < 55 {
+                // single-segment SDU
+                let room = mtu.saturating_sub(hdr_base + 2);
+                let n = match r.below(6) {
+                    0 => 0,
+                    1 => room,
+                    2 => room + 1,
+                    3 => 1,
+                    _ => r.range(0, room.max(1) as u64) as usize,
+                };
+                s.flags |= 0x05;
+                s.len = n as u16;
+                s.payload = r.bytes(n);
+                match r.below(25) {
+                    0 => s.len = s.len.wrapping_add(1),
+                    1 => s.len = s.len.wrapping_sub(1),
+                    2 => s.flags &= !0x04,
+                    3 => s.flags |= 0x02,
+                    4 => s.flags |= 0x20,
+                    5 => s.len = 65535,
+                    _ => {}
+                }
+            } else if shape < 92 {
+                // first segment of a multi-segment SDU
+                let room = mtu.saturating_sub(hdr_base + 2);
+                let total = match r.below(5) {
+                    0 => room + 1,
+                    1 => mtu.max(1),
+                    2 => mtu + 1,
+                    3 => *r.pick(&[1232usize, 1583, 3000, 3164, 3165, 3166, 3167, 40000, 65535]),
+                    _ => r.range(room as u64 + 1, (room * 4 + 8) as u64) as usize,
+                };
+                s.flags |= 0x01;
+                s.len = total as u16;
+                s.payload = r.bytes(room);
+                msg_in_progress = Some((total, room));
+                match r.below(25) {
+                    0 => {
+                        s.payload.push(1);
+                    }
+                    1 => {
+                        s.payload.pop();
+                    }
+                    2 => s.flags |= 0x04,
+                    _ => {}
+                }
+            } else {
+                // arbitrary flags / bytes
+                s.flags = r.next() as u8;
+                s.opcode = r.next() as u8;
+                s.len = r.below(40) as u16;
+                s.payload = { let n = r.range(0, 30) as usize; r.bytes(n) };
+            }
+            let _ = (est, r_level);
+            g.op(format!("inj a {}", hex(&s.bytes())));
+            // profiles: 0 = a is polled often (acks flow), 2 = never polled (overrun), others = random
+            let poll = match profile {
+                0 => r.chance(2, 3),
+                2 => false,
+                3 => r.chance(1, 10),
+                _ => r.chance(1, 3),
+            };
+            if poll {
+                g.op("poll a".into());
+            }
+            if profile == 0 && r.chance(1, 2) {
+                g.op("fetch a 4096".into());
+            }
+        }
+    }
+    let nt = g.n_ok >= 1 && g.n_err >= 1;
+    (kind, g.ops, nt)
+}
+
+fn pick_len(r: &mut Rng, mtu: usize) -> usize {
+    match r.below(10) {
+        0 => r.range(1, 6) as usize,
+        1 => mtu.saturating_sub(r.range(0, 7) as usize).max(1),
+        2 => mtu + r.range(0, 3) as usize,
+        3 => (mtu - 2) * r.range(2, 4) as usize - r.range(0, 6) as usize,
+        4 => *r.pick(&[1usize, 2, 1231, 1232, 1233, 0, 1000]),
+        5 => r.range(1, 1232) as usize,
+        _ => r.range(1, 60) as usize,
+    }
+}
+
+/// link stream: two well-behaved ends, `a` initiator, `b` responder.
+fn gen_link(r: &mut Rng, out: &mut Out, thorough: bool) -> (String, Vec<(String, String)>, bool) {
+    let gatts: [u16; 14] = [0, 23, 24, 25, 27, 32, 50, 64, 100, 128, 185, 247, 300, 512];
+    let ga = *r.pick(&gatts);
+    let gb = if r.chance(3, 5) { ga } else { *r.pick(&gatts) };
+    let relaxed_b = r.chance(1, 2);
+    let kind = format!("l 1 0 {} {} 0 {}", ga, gb, relaxed_b as u8);
+    let mut g = Gen { w: World::new(&kind), ops: Vec::new(), out, n_ok: 0, n_err: 0, n_msg: 0, n_tx: 0 };
+    // handshake, sometimes with sends queued before it completes and out-of-order polls
+    if r.chance(1, 3) {
+        let m = { let n = r.range(1, 40) as usize; r.bytes(n) };
+        g.op(format!("send a {}", hex(&m)));
+    }
+    if r.chance(1, 4) {
+        g.op("poll b".into());
+        g.op("dlv b".into());
+    }
+    g.op("poll a".into());
+    if r.chance(1, 4) {
+        g.op("poll a".into());
+    }
+    if r.chance(2, 5) {
+        let win = *r.pick(&[1u64, 2, 2, 3, 3, 4, 5, 7, 20, 255]);
+        g.op(format!("hsw b {}", win));
+    }
+    g.op("dlv b".into());
+    g.op("poll b".into());
+    g.op("dlv a".into());
+    let mtu = g.w.a.fields()[0] as usize;
+    let win = g.w.a.fields()[1] as usize;
+    g.out.stat(&format!("link_mtu_{}", mtu), 1);
+    g.out.stat(&format!("link_win_{}", win), 1);
+    let profile = r.below(6);
+    let steps = match profile {
+        5 => if thorough { r.range(1500, 4000) } else { r.range(900, 1600) }, // long run of small messages: sequence wrap
+        _ => if thorough { r.range(40, 900) } else { r.range(20, 260) },
+    };
+    for _ in 0..steps {
+        let c = r.below(100);
+        // weights per profile: (send a, send b, poll a, poll b, dlv a, dlv b, fetch a, fetch b, tick)
+        let wts: [u64; 9] = match profile {
+            0 => [8, 8, 16, 16, 16, 16, 9, 9, 2],
+            1 => [14, 1, 22, 10, 10, 22, 3, 12, 6],  // a sends, b receives
+            2 => [12, 12, 20, 20, 12, 12, 1, 1, 10], // slow applications: acks withheld, timers
+            3 => [10, 10, 25, 25, 8, 8, 6, 6, 2],    // queues build up
+            4 => [6, 6, 12, 12, 25, 25, 6, 6, 2],    // fast wire
+            _ => [14, 4, 20, 14, 14, 20, 5, 9, 0],
+        };
+        let total: u64 = wts.iter().sum();
+        let mut k = c * total / 100;
+        let mut idx = 0;
+        for (i, wt) in wts.iter().enumerate() {
+            if k < *wt {
+                idx = i;
+                break;
+            }
+            k -= wt;
+            idx = i;
+        }
+        match idx {
+            0 | 1 => {
+                let x = if idx == 0 { "a" } else { "b" };
+                let len = if profile == 5 { r.range(1, 12) as usize } else { pick_len(r, mtu.max(8)) };
+                let m = r.bytes(len);
+                g.op(format!("send {} {}", x, hex(&m)));
+            }
+            2 => {
+                g.op("poll a".into());
+            }
+            3 => {
+                g.op("poll b".into());
+            }
+            4 => {
+                g.op("dlv a".into());
+            }
+            5 => {
+                g.op("dlv b".into());
+            }
+            6 => {
+                g.op("fetch a 2048".into());
+            }
+            7 => {
+                g.op("fetch b 2048".into());
+            }
+            _ => {
+                g.op(format!("tick {}", *r.pick(&[1u64, 2, 7, 14, 15, 16, 20])));
+                g.op(format!("due {}", if r.chance(1, 2) { "a" } else { "b" }));
+            }
+        }
+        if g.w.a.dead || g.w.b.dead {
+            break;
+        }
+    }
+    // drain: a fair tail so that most submitted messages do arrive
+    if r.chance(3, 4) {
+        for _ in 0..r.range(4, 60) {
+            for op in ["poll a", "dlv b", "fetch b 2048", "poll b", "dlv a", "fetch a 2048"] {
+                g.op(op.to_string());
+            }
+            if r.chance(1, 6) {
+                g.op("tick 15".into());
+            }
+        }
+    }
+    if g.n_tx >= 520 {
+        g.out.stat("link_cases_with_520_or_more_segments", 1);
+    }
+    let nt = g.n_msg >= 1 && g.n_tx >= 4;
+    (kind, g.ops, nt)
+}
+
+fn emit(out: &mut Out, id: u64, kind: &str, ops: &[(String, String)], nt: bool) {
+    out.case(id, kind);
+    for (op, o) in ops {
+        out.op(op, o);
+    }
+    if nt {
+        out.buf.push_str("#nt\n");
+    }
+}
+
+pub fn gen(a: &Args) -> String {
+    if std::env::var("C18_DEBUG").is_ok() {
+        std::panic::set_hook(Box::new(|i| eprintln!("{}", i)));
+    }
+    let mut r = Rng::new(a.seed);
+    let mut out = Out::default();
+    out.buf.push_str("#rule kind h: one real Btp end (responder or initiator, strict/relaxed MTU, various GATT MTUs) fed by a generated hostile peer: noise before the handshake, handshake requests/responses with boundary mtu/window values and mutations, then nearly valid data/ack segments built from the end's real state (right/wrong sequence number, valid/stale/bogus acknowledgement, single- and multi-segment SDUs with right/wrong lengths and flags, window overrun, repeated handshakes), interleaved with send/poll/fetch/tick; kind l: two real Btp ends joined by FIFO queues under a random schedule of send/poll/deliver/fetch/tick with message lengths 0..1233 around the segment size, six scheduler profiles incl. long runs (sequence wrap) and slow applications (withheld acks, ack timers); non-trivial = (h) at least one segment accepted and one refused, (l) at least one message fetched and four segments sent; distinct = by operation list\n");
+    let n_cases = if a.thorough { 9000 } else { 3000 };
+    for id in 0..n_cases {
+        let mut cr = r.fork();
+        let (kind, ops, nt) = if cr.chance(1, 2) {
+            out.stat("kind_h", 1);
+            gen_hostile(&mut cr, &mut out, id, a.thorough)
+        } else {
+            out.stat("kind_l", 1);
+            gen_link(&mut cr, &mut out, a.thorough)
+        };
+        emit(&mut out, id, &kind, &ops, nt);
+    }
+    out.finish()
+}
+
+fn run_case(out: &mut Out, c: &Case) {
+    out.case(c.id, &c.kind);
+    let mut w = World::new(&c.kind);
+    for op in &c.ops {
+        let o = w.exec(op);
+        out.op(op, &o);
+    }
+}
+
+pub fn replay(a: &Args) -> String {
+    let text = std::fs::read_to_string(a.input.as_ref().expect("--in")).expect("read input");
+    let mut out = Out::default();
+    for c in parse_cases(&text) {
+        run_case(&mut out, &c);
+    }
+    // keep the unused re-export referenced (hook presence is part of the build check)
+    let _ = Session::verif_initial_window_size(20);
+    out.finish()
+}
+
+#[allow(dead_code)]
+const _: usize = MAX_TX;
